@@ -111,8 +111,12 @@ func (i *IRCServer) VerifProject() map[string]interface{} {
 	for n, h := range i.svsholds {
 		holds[string(n)] = map[string]interface{}{"added": vsec(h.added), "dur": int64(h.duration / time.Second), "reason": h.reason}
 	}
-	srv := make([]interface{}, 0, len(i.serverSessions))
-	for _, id := range i.serverSessions {
+	// serverSessions in sorted order: its order is never observable (sendServices only fills a recipient
+	// map) and a loaded server rebuilds it in map iteration order
+	sids := append([]uint64{}, i.serverSessions...)
+	sort.Slice(sids, func(a, b int) bool { return sids[a] < sids[b] })
+	srv := make([]interface{}, 0, len(sids))
+	for _, id := range sids {
 		srv = append(srv, int64(id))
 	}
 	i.lastProcessedMu.RLock()
